@@ -63,3 +63,11 @@ reg("C17",
     explanation="a dynamic ErrorType+Serialize value: one parameter of every shape x value (safe/unsafe, null-or-skipped); every definition over 6 parameter names x {undefined, safe, unsafe} x {scalar, list, absent optional}; every error code; each through encode, with_instance_id, Error::service, service_safe, propagated_service, propagated_service_safe",
     level_text="Bounded exhaustive exploration of error definitions (all safe/unsafe/omitted interleavings in sorted-name order up to 6 names) and of parameter shapes/values, executed on the implementation against a reference model of the encoding rules and of the partition.",
     level_note="Trusted: the dynamic (Shape, Val) Serialize impl (bound to derive by the C01 twin conformance); Rust's f64 parser as judge of 'parses back to the same number'. Generated error types (code, Namespace:Name, sorted safe_args) are covered by the E2 part when built.")
+
+reg("C11",
+    packages=["httpdirect"], bin="httpdirect", level="model_checking", engine="E3a httpdirect",
+    technique="explicit-state enumeration of (Accept header list, ordered encoding registry) and (Content-Type, registry) states, each executed on the real negotiation code and compared with a declarative specification of permitted/optimal choices",
+    design_ref="DESIGN.md §3 C11",
+    explanation="every Accept list of <= n items over 7 ranges x 8 q spellings + an unparsable item, rendered as one or two header lines, x all 15 ordered registries of json/smile/text-plain; reference model = the statement's declarative predicate (permitted, no better permitted, range-order then registration-order tie-break)",
+    level_text="Explicit-state model checking with 100% conformance: every state of the bounded header x registry space is run on ConjureRuntime and its answer compared with a specification-level oracle that is not the implementation's sort-and-select algorithm.",
+    level_note="Trusted: the declarative oracle (about 80 lines); http::HeaderValue for carrying the header text. Where the statement is silent (no parsable range, malformed q, equal specificity with different q) both readings are accepted and counted separately.")
